@@ -100,7 +100,7 @@ def layout(tier: str) -> dict:
     max_ops = 2 if tier == "quick" else 3
     enum_blocks = -(-ENUM_SIZE[max_ops] // ENUM_BLOCK)
     small_blocks = -(-n_small_trees() // SMALL_BLOCK)
-    mixed = 7500 if tier == "quick" else 80000
+    mixed = 6000 if tier == "quick" else 80000
     # case ids: [0, small_blocks) small-tree blocks; after that every ``stride``-th id is a block
     # of the string enumeration and the others are random (tree + strings) cases.  quick: the
     # (cheap) enumeration comes first as a whole; thorough: interleaved, so that a run truncated by
@@ -565,6 +565,35 @@ def explained_by_literal_grammar(text: str, pairs) -> bool:
     return differs
 
 
+def explained_by_minus_power_counterfactual(pytext: str, names: dict[str, str], pairs) -> bool:
+    """``pairs``: (bindings, value the text should have, or None).  True iff the text has a power
+    directly under a unary minus and the library handles the text correctly under every binding
+    once exactly those powers are parenthesised (``-a ** b`` -> ``-(a ** b)``)."""
+    try:
+        tree = G.python_meaning(pytext, funcs=G.FUNCS_ALLOWED + G.FUNCS_DIAGNOSTIC)
+        fixed, changed = G.parenthesise_power_under_minus(tree)
+    except Exception:  # noqa: BLE001 - naming only
+        return False
+    if not changed:
+        return False
+    real = G.real_text_from_python(fixed, names)
+    checked = 0
+    for b, want in pairs:
+        if want is None:
+            continue
+        checked += 1
+        if _reparse_value(real, b) != want:
+            return False
+    return checked > 0
+
+
+def is_unary_minus_power(text: str, pairs) -> bool:
+    if explained_by_literal_grammar(text, pairs):
+        return True
+    pytext, names = G.alias_text(text.strip(), set().union(*[set(b) for b, _ in pairs]))
+    return explained_by_minus_power_counterfactual(pytext, names, pairs)
+
+
 def _std_values(pytext, names, bindings, funcs=G.FUNCS_ALLOWED + G.FUNCS_DIAGNOSTIC):
     """Python's reading of ``pytext`` under each binding (None when out of domain/too large)."""
     tree = G.python_meaning(pytext, funcs=funcs)
@@ -640,7 +669,7 @@ def name_text_disagreement(text, pytext, names, bindings) -> tuple[str, str | No
     """Mechanism name for 'the library's value of ``text`` differs from Python's reading'."""
     tree, stds = _std_values(pytext, names, bindings, funcs=G.FUNCS_ALLOWED + G.FUNCS_DIAGNOSTIC)
     pairs = [(b, s) for b, s in zip(bindings, stds)]
-    if explained_by_literal_grammar(text, pairs):
+    if explained_by_literal_grammar(text, pairs) or explained_by_minus_power_counterfactual(pytext, names, pairs):
         return "unary-minus-power", None
     try:
         small, shape, sptxt, sreal = _shrink_text(pytext, names, bindings)
@@ -804,7 +833,7 @@ def _name_tree_failure(t, bindings, f, order_seed, via_shape):
         names = undocumented_functions(w.text or "")
         what = "+".join(names) if names else (_exc_class(w.got) if isinstance(w.got, BaseException) else "?")
         sig = f"print-parse|unparseable:{what}|root={small[0]}{stage}"
-        if not names and w.want is not None and explained_by_literal_grammar(w.text, [(w.binding, w.want)]):
+        if not names and w.want is not None and is_unary_minus_power(w.text, [(w.binding, w.want)]):
             # every function is known to the parser; it fails because it reads '-a**b' as '(-a)**b'
             sig = f"print-parse|parser-misreads|unary-minus-power{stage}"
     elif w.kind == "print-parse" and w.cls == "value-changed":
@@ -995,7 +1024,7 @@ def _name_string_failure(text, pytext, names, bindings, f):
         fn = undocumented_functions(f.text or "")
         what = "+".join(fn) if fn else (_exc_class(f.got) if isinstance(f.got, BaseException) else "?")
         sig = f"print-parse|unparseable:{what}|stage=parsed-then-printed"
-        if not fn and f.want is not None and explained_by_literal_grammar(f.text, [(f.binding, f.want)]):
+        if not fn and f.want is not None and is_unary_minus_power(f.text, [(f.binding, f.want)]):
             # every function is known to the parser; it fails because it reads '-a**b' as '(-a)**b'
             sig = "print-parse|parser-misreads|unary-minus-power|stage=parsed-then-printed"
     elif f.kind == "print-parse" and f.cls == "value-changed":
